@@ -2,27 +2,34 @@
 
 Implementation: snowfakery.generate_data / snowfakery.data_generator.generate called back to back in
 ONE process; model: coq/theories/Isolation.v (the process-wide state `proc` and how a run reads and
-writes it).
+writes it; the iteration loop, stopping criteria, continuation ids and the with-blocks of a run).
 
-One case = one sequence of 2..6 recipes.  The sequence runs in a dedicated process that has imported
-snowfakery and run nothing (the model's proc0); every recipe of the sequence also runs alone in its
-own pristine process.  Three checks per case:
-  * property oracle (implementation only): output of recipe i in the sequence == its output alone
-    (deterministic recipes: identical rows and error class; unique-id / random / clock fields:
-    structure, plus distinctness of unique ids over the whole sequence and freshness of `now`);
+One case = one sequence of 2..8 JOBS (recipe + continuation file in / out + stopping criterion +
+user options + how the application object is made).  The sequence runs in a dedicated process that
+has imported snowfakery and run nothing (the model's proc0); every job also runs alone in its own
+pristine process on the same inputs (the continuation file the sequence produced included).
+Three checks per case:
+  * property oracle (implementation only): output of job i in the sequence == its output alone
+    (deterministic recipes: identical rows, error class and continuation file written; unique-id /
+    random / clock fields: structure, plus distinctness of unique ids over the whole sequence and
+    freshness of `now`; ids start right after the run's OWN continuation file);
   * correspondence: the model predicts, run after run, the observations of the process-touching
     operations (ids, memoised counters, (context,index) of every unique id, date-parse results,
-    version mode) AND the visible part of the process state after the run (context counter,
-    cache_info of the two date caches, whether the RowHistory context variable was replaced, the
-    application's options dict, which must come back unchanged);
-  * state-diff audit: all snowfakery.* module objects are fingerprinted before and after each run;
-    a changed location that is neither in the model's `proc` record nor in the whitelist (import
-    caches, warnings registries) is "unmodelled process state" = a disagreement with the model.
+    version mode, which dataset file a relative path opened) through its own iteration loop AND the
+    visible part of the process state after the run (context counter, cache_info of the two date
+    caches, whether the RowHistory context variable was replaced, the application's options dict,
+    working directory, sys.path, imported local plugin modules, rep_count / starting_id of the
+    application object);
+  * state-diff audit: all snowfakery.* module objects, all live classes, context variables and
+    process-level locations are fingerprinted before and after each run; a changed location that is
+    neither in the model's `proc` record nor in the whitelist is "unmodelled process state" = a
+    disagreement with the model.
 
 Pristine processes: `fresh: "spawn"` starts a new interpreter per run (PYTHONPATH = common.REPO);
 `fresh: "fork"` forks the pool worker, which has imported snowfakery and never runs a recipe itself
 (checked with the same fingerprint before every fork; a worker that is not pristine falls back to
-spawn).  Never compared: timestamps (only "inside the window of run j"), addresses, messages."""
+spawn).  Never compared: timestamps (only "inside the window of run j"), addresses, messages, the
+date a continuation file was written on."""
 import collections
 import contextvars
 import datetime
@@ -51,38 +58,59 @@ PROP = "C19"
 MODEL = "Isolation"
 SHARD = 60
 CASE_TIMEOUT = 120
-RULE = ("cases: sequences of 2..6 recipes run back to back in one pristine process through generate / "
-        "generate_data, each recipe also alone in its own pristine process.  Recipes: (a) process-programs "
-        "(templates whose fields are unique_id / UniqueId.unique_id / unique_alpha_code, date / datetime with "
-        "string, native and clock keys, named and unnamed Counters.NumberCounter, Counters.DateCounter, "
-        "random_reference + attribute load, version probe, failing formulas, parse failures, unknown stop "
-        "table; 1-2 iterations), (b) SF-core recipes of sfcore.gen_recipe, (c) hand-written plugin recipes "
-        "(Dataset.iterate/shuffle, random_reference unique, nicknames + variables, just_once, counters with "
+RULE = ("cases: sequences of 2..8 JOBS run back to back in one pristine process through generate / "
+        "generate_data, each job also alone in its own pristine process on the same inputs (files as they are "
+        "then, the continuation file the sequence produced).  A job = recipe + run parameters: fresh or "
+        "CONTINUED from the continuation file an earlier job of the sequence wrote (chains of 2-3 links, "
+        "interleaved with other runs and other chains), optionally writing one; stopping criterion = "
+        "iterations or target_number (n, table) on fresh and continued runs; user options (option-controlled "
+        "counts: a first link that makes NO row of a table, so its continuation file lacks the table the next "
+        "link is stopped by); application object new per run, made by the API, or ONE object reused by all "
+        "runs.  Recipes: (a) process-programs (templates over the shared tables A B C P whose fields are "
+        "unique_id / UniqueId.unique_id / unique_alpha_code, date / datetime with string, native and clock "
+        "keys, named and unnamed Counters.NumberCounter, Counters.DateCounter, random_reference + attribute "
+        "load, version probe, failing formulas, Dataset.iterate with a RELATIVE path (stream recipe / recipe "
+        "FILE in another directory / missing file / wrong extension), a local plugin module (found, not "
+        "found, raising at import), parse failures, unknown stop table), (b) SF-core recipes of "
+        "sfcore.gen_recipe, (c) hand-written plugin recipes (Dataset.iterate/shuffle, random_reference "
+        "unique, nicknames + variables, just_once, names that only a continued run evaluates, counters with "
         "parent, fake, random_number, broken YAML, unfilled reference); sequences repeat a recipe with "
         "probability 1/2; optional shared plugin_options dict.  non-trivial: >= 2 runs reached execution "
         "and the sequence exercises at least one stateful mechanism (unique id, date cache, memoised "
-        "plugin value, row history, dataset, failing predecessor, repeated recipe); distinct by case hash")
-TRUSTED = ["harness/c19.py: state walker (module globals, class attributes, function defaults / closure cells / "
-           "attributes, lru_cache cache_info, ContextVar values of every snowfakery.* module) and its whitelist",
+        "plugin value, row history, dataset, continued run, target number, reused application object, failing "
+        "predecessor, repeated recipe); distinct by case hash")
+TRUSTED = ["harness/c19.py: state walker (module globals, ALL live classes of the package with their class-level "
+           "attributes, function defaults / closure cells / attributes, every lru_cache's cache_info, the context "
+           "variables of the current context, cwd / sys.path / environ / std streams / threads / logging root / umask, "
+           "curated Faker and jinja2 module state) and its whitelist",
            "harness/c19.py: pristine-process plumbing (fork of an idle pool worker / subprocess spawn)",
            "harness/c19.py: decoding of unique ids to (context, index) with the implementation's own "
            "unscramble_number and baseconv",
-           "harness/c19.py: the unrolling of a process-program into the model's operation list"]
+           "harness/c19.py: the translation of a process-program job into the model's one-iteration operation "
+           "list, criterion and continuation ids (id_manager.last_used_ids read from the continuation file)"]
 ASSUMPTIONS = ["dateutil / the isinstance branches behind parse_date and parse_datetimespec are functions of the "
                "key for keys that do not read the clock (Section variables parse_d / parse_dt; instantiated per "
                "case with the values observed in the fresh processes)",
+               "the file system and the import system are functions of (directory, name) during a case (Section "
+               "variables read_file / load_plugin; instantiated with the files the harness puts under the case root)",
                "the clock is an input of a run (env); `now` values are only located in the time window of a run",
                "the model's proc record lists every location that survives a run: NOT proved, audited on every "
-               "run by the state-diff walker over snowfakery.* (state kept inside third-party libraries - "
-               "jinja2, faker, yaml, random - is outside the audit)",
+               "run by the state-diff walker (state kept inside third-party libraries is audited only at the "
+               "curated locations: Faker's shared random generators and global seed, jinja2 / faker / dateutil / "
+               "yaml memo tables)",
+               "an embedding application that reuses its SnowfakeryApplication object is OUTSIDE the independence "
+               "theorems (hypothesis e_new_app = true \\/ same p_app): open finding C19-app-object-reused",
                "C19_uid_values_distinct relies on C13's value pipeline (UniqueId.v)"]
 EXHAUSTIVE = {"quick": False, "thorough": False}
 
 F_ALPHA = "C19-K5-alpha-codes-repeat-across-runs"
+F_APP = "C19-app-object-reused"
+LOCAL_PLUGINS = {"c19_plug": "Doubler", "c19_bad": "Broken"}     # module -> class, under other/plugins
 
 CSV_TEXT = "a,b\n1,x\n2,y\n3,z\n4,w\n5,v\n"
 PLUGIN_TEXT = ("from snowfakery import SnowfakeryPlugin\n\n\nclass Doubler(SnowfakeryPlugin):\n"
                "    class Functions:\n        def double(self, x):\n            return int(x) * 2\n")
+BAD_PLUGIN_TEXT = "raise ValueError('this plugin module cannot be imported')\n"
 PLUGIN_RECIPE = "- plugin: c19_plug.Doubler\n- object: T\n  count: 2\n  fields:\n    n: ${{Doubler.double(id + 20)}}\n"
 CSV_OTHER = "a,b\n91,ox\n92,oy\n93,oz\n"        # data.csv of the OTHER directory
 SHARED_OPTS = {"pid": 7}          # a non-empty options dict owned by the embedding application
@@ -104,10 +132,38 @@ def _h(s):
 
 
 def _is_sf_class(cls):
-    return isinstance(cls, type) and (getattr(cls, "__module__", "") or "").split(".")[0] == PREFIX
+    if not isinstance(cls, type):
+        return False
+    m = getattr(cls, "__module__", "")
+    return isinstance(m, str) and m.split(".")[0] == PREFIX
 
 
 _LRU_TYPE = type(functools.lru_cache()(lambda: None))
+
+
+def _all_sf_classes():
+    """every live class defined in a snowfakery.* module (object.__subclasses__ closure)"""
+    out, seen, todo = [], set(), [object]
+    while todo:
+        c = todo.pop()
+        try:
+            subs = type.__subclasses__(c)
+        except Exception:
+            continue
+        for s in subs:
+            if id(s) in seen:
+                continue
+            seen.add(id(s))
+            todo.append(s)
+            if _is_sf_class(s):
+                out.append(s)
+    return sorted(out, key=lambda c: (c.__module__, c.__qualname__))
+
+
+def _umask():
+    m = os.umask(0)
+    os.umask(m)
+    return oct(m)
 
 
 def _is_lru(v):
@@ -131,7 +187,7 @@ class Walker:
             return "set{" + ",".join(sorted(self.fp(x, depth + 1, stack) for x in v)) + "}"
         if isinstance(v, collections.ChainMap):
             return "ChainMap" + self.fp(v.maps, depth + 1, stack)
-        if isinstance(v, dict):
+        if isinstance(v, (dict, types.MappingProxyType)):
             items = sorted((self.fp(k, depth + 1, stack), self.fp(x, depth + 1, stack)) for k, x in list(v.items()))
             return type(v).__name__ + "{" + ",".join(a + "=" + b for a, b in items) + "}"
         if isinstance(v, itertools.count):
@@ -250,6 +306,24 @@ class Walker:
                 if isinstance(v, (types.FunctionType, type)) and getattr(v, "__module__", None) != mn:
                     continue        # defined elsewhere: walked at its home
                 self.walk_value(f"{mn}:{k}", v, seen)
+        # every live class of the package, however it is (not) reachable from a module namespace: local
+        # classes, classes whose module attribute was rebound, nested classes (class-level dicts / lists /
+        # sets / counters are fingerprinted by content: a class attribute is process state)
+        for cls in _all_sf_classes():
+            if id(cls) not in seen:
+                # identified by the object: the next run may make another class of the same name
+                self.walk_class(f"{cls.__module__}:<class {cls.__qualname__}@{id(cls):x}>", cls, seen)
+        # every context variable that has a value in the current context (whoever holds the ContextVar)
+        try:
+            decimal.getcontext()        # creates the thread's default decimal context if it is not there yet
+            for var, val in contextvars.copy_context().items():
+                if _is_sf_class(type(val)):
+                    self.locs[f"<process>:contextvar:{var.name}"] = "set:%s@%x" % (type(val).__name__, id(val))
+                else:
+                    self.locs[f"<process>:contextvar:{var.name}"] = "foreign:" + _h(repr(val))
+        except Exception:
+            pass
+        self.third_party()
         # process-level locations outside the package that Snowfakery code touches
         self.locs["<process>:cwd"] = os.getcwd()
         self.locs["<process>:sys.path"] = _h(repr(sys.path))
@@ -264,7 +338,62 @@ class Walker:
         import warnings
         self.locs["<process>:warnings.filters"] = _h(repr([(f[0], str(f[1]), str(f[2]), str(f[3]), f[4])
                                                            for f in warnings.filters]))
+        import threading
+        import logging
+        self.locs["<process>:threads"] = str(threading.active_count())
+        self.locs["<process>:std streams"] = "%x/%x/%x" % (id(sys.stdin), id(sys.stdout), id(sys.stderr))
+        self.locs["<process>:sys.meta_path"] = _h(repr([type(x).__name__ if not isinstance(x, type) else x.__name__
+                                                         for x in sys.meta_path]))
+        self.locs["<process>:sys.path_hooks"] = str(len(sys.path_hooks))
+        self.locs["<process>:logging.root"] = "%s/%d/%s" % (logging.root.level, len(logging.root.handlers),
+                                                            logging.root.manager.disable)
+        self.locs["<process>:tempfile.tempdir"] = repr(tempfile.tempdir)
+        try:
+            self.locs["<process>:umask"] = _umask()
+        except Exception:
+            pass
         return {"mods": mods, "locs": dict(self.locs)}
+
+    def third_party(self):
+        """Curated module-level state of the libraries a run goes through (locations that exist in the
+        installed versions only; a missing name is skipped)."""
+        def get(modname, *path):
+            m = sys.modules.get(modname)
+            for a in path:
+                if m is None:
+                    return None
+                m = getattr(m, a, None)
+            return m
+        g = get("faker.generator", "Generator")
+        if g is not None:
+            self.locs["<faker>:Generator._global_seed"] = _h(repr(getattr(g, "_global_seed", None)))
+            self.locs["<faker>:Generator._is_seeded"] = repr(getattr(g, "_is_seeded", None))
+        for nm in ("random", "mod_random"):
+            r = get("faker.generator", nm)
+            if isinstance(r, random.Random):
+                self.locs[f"<faker>:generator.{nm}"] = "Random:" + _h(repr(r.getstate()))
+        fc = get("faker.proxy", "Faker")
+        if fc is not None:
+            for k, v in sorted(vars(fc).items()):
+                if isinstance(v, (dict, list, set)) and not k.startswith("__"):
+                    self.locs[f"<faker>:Faker.{k}"] = _h(self.fp(v))
+        # memo tables of pure constructors / pure functions: only their growth is recorded
+        for modname in ("jinja2.environment", "jinja2.lexer", "jinja2.utils", "jinja2.nativetypes", "jinja2.compiler",
+                        "faker.utils.loading", "faker.utils.distribution", "faker.config", "faker.factory",
+                        "dateutil.parser._parser", "dateutil.tz.tz", "dateutil.tz._common", "yaml.resolver",
+                        "yaml.constructor", "yaml.representer"):
+            m = sys.modules.get(modname)
+            if m is None:
+                continue
+            for k, v in sorted(vars(m).items()):
+                try:
+                    if _is_lru(v):
+                        ci = v.cache_info()
+                        self.locs[f"<memo>:{modname}.{k}"] = "lru(currsize=%d)" % ci.currsize
+                    elif k.startswith("_") and k.endswith("cache") and hasattr(v, "__len__"):
+                        self.locs[f"<memo>:{modname}.{k}"] = "len=%d" % len(v)
+                except Exception:
+                    continue
 
 
 # locations of the model's `proc` record (coq/theories/Isolation.v)
@@ -274,6 +403,7 @@ MODELLED = [
     (re.compile(r"^snowfakery\.template_funcs:_parse_datetimespec(\.<lru_cache>)?$"), "p_dts"),
     (re.compile(r"^snowfakery\.utils\.scrambled_numbers:(mask_for_key|randomizer)(\.<lru_cache>)?$"), "p_masks"),
     (re.compile(r"^snowfakery\.[A-Za-z_.]+:RowHistoryCV$"), "p_rowhist"),
+    (re.compile(r"^<process>:contextvar:RowHistory$"), "p_rowhist"),
 ]
 # justified whitelist: not run state
 WHITELIST = [
@@ -281,7 +411,11 @@ WHITELIST = [
     (re.compile(r"\.yaml_(multi_)?representers$"), "yaml representer registry (filled when a plugin module is imported)"),
     (re.compile(r"\.__slotnames__$"), "copyreg slot-name memo put on a class when an instance is first pickled "
                                       "(a function of the class definition)"),
+    (re.compile(r"^<memo>:"), "third-party memo table of a pure constructor / function keyed by all its arguments "
+                              "(jinja2 lexer and spontaneous-environment caches, faker / dateutil / yaml lru caches)"),
 ]
+# third-party random generators: may only move when the recipe calls random functions
+RANDOM_LOCS = re.compile(r"^<faker>:generator\.(random|mod_random)$")
 
 
 def classify_changes(before, after):
@@ -297,6 +431,11 @@ def classify_changes(before, after):
         mn = loc.split(":", 1)[0]
         if mn not in old_mods and not mn.startswith("<"):
             white["module imported during the run"] += 1
+            continue
+        if ":<class " in loc and (loc not in a or loc not in b):
+            # a class object that no module namespace leads to (a function-local class, made by a run
+            # for its own objects) appeared or was collected; a change INSIDE a surviving one is reported
+            white["function-local class object created / collected during the run"] += 1
             continue
         for rx, name in MODELLED:
             if rx.search(loc):
@@ -358,7 +497,7 @@ def boundary_key(rid):
 
 def gen_prog(rng, fail_p=0.22, weights=None):
     w = dict(lit=2, idplus=2, uid=3, puid=1.5, alpha=1.5, date=3, datetime=3, dtbetween=1.2, counter=3,
-             datecounter=1.2, lazy=1.2, version=1, )
+             datecounter=1.2, lazy=1.2, version=1, dsrel=0.7)
     if weights:
         w.update(weights)
     kinds, ws = zip(*w.items())
@@ -390,6 +529,8 @@ def gen_prog(rng, fail_p=0.22, weights=None):
             elif k == "datecounter":
                 tag, key, valid = rng.choice([x for x in DATE_KEYS if x[0] == "s" and x[2]])
                 fields.append(["datecounter", key])
+            elif k == "dsrel":
+                fields.append(["dsrel", rng.choice(["data.csv"] * 6 + ["no_such_file.csv", "data.txt"])])
             elif k == "lazy":
                 prev = [t for t in templates if t["count"] >= 1 and t["table"] != table]
                 if prev:
@@ -403,6 +544,8 @@ def gen_prog(rng, fail_p=0.22, weights=None):
                             t["fields"] = [f for f in t["fields"] if f[0] != "tag"] + [["tag", tag]]
                     fields.append(["lazy", tgt["table"], tag])
         templates.append({"table": table, "count": rng.choice([1, 1, 2, 2, 3, 0]), "fields": fields})
+        if rng.random() < 0.3:          # `count: ${{n<ti>}}` with the count as the option's default
+            templates[-1]["count_opt"] = f"n{ti}"
     # a template that repeats an earlier table must agree on its tag, else the lazy load is ambiguous
     tags = {}
     for t in templates:
@@ -414,6 +557,8 @@ def gen_prog(rng, fail_p=0.22, weights=None):
             t["fields"].append(["tag", tags[t["table"]]])
     spec = {"k": "prog", "version": rng.choice([None, None, 2, 3]), "templates": templates,
             "reps": rng.choice([1, 1, 1, 2]), "broken": None, "stop": None}
+    if rng.random() < 0.15:         # a recipe FILE in another directory than the working directory
+        spec["dir"] = "other"
     if rng.random() < fail_p:
         r = rng.random()
         if r < 0.25:
@@ -450,18 +595,44 @@ def _field_names(t):
     return out
 
 
+def prog_counts(spec, user_options=None):
+    """count of every template in one run: a template with `count_opt` takes it from that recipe option
+    (`count: ${{name}}`), whose value is the job's user option or else the declared default"""
+    uo = user_options or {}
+    out = []
+    for t in spec["templates"]:
+        if t.get("count_opt"):
+            v = uo.get(t["count_opt"], t["count"])
+            out.append(v if isinstance(v, int) and not isinstance(v, bool) and v >= 0 else 0)
+        else:
+            out.append(t["count"])
+    return out
+
+
+def prog_tables(spec):
+    return sorted({t["table"] for t in spec["templates"]})
+
+
 def prog_yaml(spec):
     L = []
     if spec.get("version"):
         L.append(f"- snowfakery_version: {spec['version']}")
+    for t in spec["templates"]:
+        if t.get("count_opt"):
+            L.append(f"- option: {t['count_opt']}")
+            L.append(f"  default: {t['count']}")
     kinds = {f[0] for t in spec["templates"] for f in t["fields"]}
     if kinds & {"counter", "datecounter"}:
         L.append("- plugin: snowfakery.standard_plugins.Counters")
     if "puid" in kinds:
         L.append("- plugin: snowfakery.standard_plugins.UniqueId")
+    if "dsrel" in kinds:
+        L.append("- plugin: snowfakery.standard_plugins.datasets.Dataset")
+    for m in spec.get("plugins") or []:
+        L.append(f"- plugin: {m}.{LOCAL_PLUGINS[m]}")
     for ti, t in enumerate(spec["templates"]):
         L.append(f"- object: {t['table']}")
-        L.append(f"  count: {t['count']}")
+        L.append(f"  count: ${{{{{t['count_opt']}}}}}" if t.get("count_opt") else f"  count: {t['count']}")
         if spec.get("broken") == "parse" and ti == len(spec["templates"]) - 1:
             L.append("  bogus_key: 1")
         names = _field_names(t)
@@ -511,6 +682,13 @@ def prog_yaml(spec):
                 L.append(f"    {name}: ${{{{{name}r.tag}}}}")
             elif k == "version":
                 L.append(f"    {name}: ${{{{ none }}}}")
+            elif k == "dsrel":          # a relative dataset path; the first column of the row tells the file
+                L.append(f"    __{name}:")
+                L.append("      Dataset.iterate:")
+                L.append(f"        dataset: {f[1]}")
+                L.append(f"    {name}: ${{{{__{name}.a}}}}")
+            elif k == "plug":           # a function of a local plugin (pure)
+                L.append(f"    {name}: ${{{{Doubler.double(id + 20)}}}}")
             elif k == "failat":
                 L.append(f"    {name}: ${{{{ 1 // ({f[1]} - id) }}}}")
             elif k == "fail":
@@ -520,53 +698,91 @@ def prog_yaml(spec):
     return "\n".join(L) + "\n"
 
 
-def prog_trace(spec):
-    """Unrolled evaluation: list of rows (table, [(field name, field spec, model op or None)])."""
+def job_of(spec):
+    return spec.get("job") or {}
+
+
+def prog_body(spec):
+    """rows of ONE iteration of the job: [(table, ti, [(field name, field spec)])]"""
+    counts = prog_counts(spec, job_of(spec).get("user_options"))
     rows = []
-    made = set()                      # memo sites already created in this run (DateCounter)
-    last = collections.Counter()
-    for _rep in range(spec.get("reps", 1)):
-        for ti, t in enumerate(spec["templates"]):
-            for _j in range(t["count"]):
-                last[t["table"]] += 1
-                rid = last[t["table"]]
-                ops = []
-                for name, f in _field_names(t):
-                    k = f[0]
-                    op = None
-                    if k == "uid":
-                        op = "(OUid SlotNum)"
-                    elif k == "puid":
-                        op = "(OUid SlotPluginNum)"
-                    elif k == "alpha":
-                        op = "(OUid SlotAlpha)"
-                    elif k == "date":
-                        op = f"(ODate {C.cstr(model_key(f[1], f[2]))})"
-                    elif k == "datetime":
-                        op = f"(ODatetime {C.cstr(model_key(f[1], f[2]))})"
-                    elif k == "dtbetween":
-                        op = f"(ODatetime {C.cstr(model_key(f[1], f[2]))}); (ODatetime {C.cstr(model_key(f[1], f[2]))})"
-                    elif k == "dtf":
-                        op = f"(ODatetime {C.cstr(boundary_key(rid))})"
-                    elif k == "counter":
-                        nm = f[1] or f"site_{ti}_{name}"
-                        op = f"(OCounter {C.cstr(nm)} {C.cz(f[2])} {C.cz(f[3])})"
-                    elif k == "datecounter":
-                        if (ti, name) not in made:
-                            made.add((ti, name))
-                            op = f"(ODate {C.cstr(f[1])})"
-                    elif k == "lazy":
-                        op = f"(OLazy {C.cstr(f[1])})"
-                    elif k == "version":
-                        op = "OVersion"
-                    elif k == "failat":
-                        if rid == f[1]:
-                            op = "(OFail (DGE \"\"))"
-                    elif k == "fail":
-                        op = "(OFail (DGE \"\"))"
-                    ops.append((name, f, op))
-                rows.append((t["table"], ops))
+    for ti, t in enumerate(spec["templates"]):
+        for _j in range(counts[ti]):
+            rows.append((t["table"], ti, _field_names(t)))
     return rows
+
+
+def prog_static(spec):
+    """True when the job is one iteration from known ids (no continuation, no target): row ids are
+    known before the run (needed by `dtf`, whose key is computed from the id)"""
+    j = job_of(spec)
+    return not j.get("cont_in") and not j.get("target") and spec.get("reps", 1) == 1
+
+
+def prog_has_dtf(spec):
+    return any(f[0] == "dtf" for t in spec["templates"] for f in t["fields"])
+
+
+def field_ops(ti, name, f, rid=None):
+    """model operations of one field evaluation (list of Coq terms); iteration-independent except dtf"""
+    k = f[0]
+    if k == "uid":
+        return ["(OUid SlotNum)"]
+    if k == "puid":
+        return ["(OUid SlotPluginNum)"]
+    if k == "alpha":
+        return ["(OUid SlotAlpha)"]
+    if k == "date":
+        return [f"(ODate {C.cstr(model_key(f[1], f[2]))})"]
+    if k == "datetime":
+        return [f"(ODatetime {C.cstr(model_key(f[1], f[2]))})"]
+    if k == "dtbetween":
+        return [f"(ODatetime {C.cstr(model_key(f[1], f[2]))})"] * 2
+    if k == "dtf":
+        return [f"(ODatetime {C.cstr(boundary_key(rid))})"]
+    if k == "counter":
+        nm = f[1] or f"site_{ti}_{name}"
+        return [f"(OCounter {C.cstr(nm)} {C.cz(f[2])} {C.cz(f[3])})"]
+    if k == "datecounter":
+        return [f"(ODateOnce {C.cstr(f'dc_{ti}_{name}')} {C.cstr(f[1])})"]
+    if k == "lazy":
+        return [f"(OLazy {C.cstr(f[1])})"]
+    if k == "version":
+        return ["OVersion"]
+    if k == "failat":
+        return None         # needs the table: see body_ops
+    if k == "fail":
+        return ['(OFail (DGE ""))']
+    if k == "dsrel":
+        return [f"(ODataset {C.cstr(f'ds_{ti}_{name}')} {C.cstr(f[1])})"]
+    return []
+
+
+def body_ops(spec):
+    """the operations of one iteration, as Coq terms"""
+    ops = []
+    last = collections.Counter()
+    for table, ti, fields in prog_body(spec):
+        last[table] += 1
+        ops.append(f"(ORow {C.cstr(table)})")
+        for name, f in fields:
+            if f[0] == "failat":
+                ops.append(f"(OFailAt {C.cstr(table)} {C.cz(f[1])})")
+            else:
+                ops.extend(field_ops(ti, name, f, last[table]))
+    return ops
+
+
+def prog_rows(spec, nrows):
+    """field specs of the first `nrows` rows the job delivers: the body repeated (delivered rows are a
+    prefix of the iterations written out)"""
+    body = prog_body(spec)
+    if not body:
+        return []
+    out = []
+    while len(out) < nrows:
+        out.extend(body)
+    return out[:nrows]
 
 
 def prog_features(spec):
@@ -586,6 +802,12 @@ def prog_features(spec):
         out.add("init_failure")
     if spec.get("reps", 1) > 1:
         out.add("two_iterations")
+    if any(t.get("count_opt") for t in spec["templates"]):
+        out.add("count_from_option")
+    if spec.get("plugins"):
+        out.add("local_plugin")
+    if spec.get("dir"):
+        out.add("recipe_file")
     return out
 
 
@@ -630,6 +852,16 @@ def yaml_pool():
     add("dataset_bad_table_file_other", rel % "\"sqlite:///nodb.db\"\n        table: nope",
         feats=["dataset", "relative_path", "recipe_file", "fails"])
     P[-1]["dir"] = "other"
+    sql = ("- plugin: snowfakery.standard_plugins.datasets.Dataset\n- object: D\n  count: 2\n  fields:\n"
+           "    __row:\n      Dataset.iterate:\n        dataset: sqlite:///people.db\n        table: people\n"
+           "    name: ${{__row.name}}\n")
+    # the same relative database URL means another file for a recipe in another directory
+    add("dataset_sql_rel_stream", sql, feats=["dataset", "relative_path", "sql_dataset"])
+    add("dataset_sql_rel_file_other", sql, feats=["dataset", "relative_path", "sql_dataset", "recipe_file"])
+    P[-1]["dir"] = "other"
+    add("dataset_sql_rel_file_work", sql, feats=["dataset", "relative_path", "sql_dataset", "recipe_file"])
+    P[-1]["dir"] = "work"
+
     def settings(region, n):
         return (f"- var: region\n  value: {region}\n- var: n\n  value: {n}\n- macro: m\n  fields:\n"
                 "    source: ${{region}}-import\n")
@@ -704,6 +936,17 @@ def yaml_pool():
     add("macro_option",
         "- option: size\n  default: 3\n- macro: m\n  fields:\n    s: ${{size}}\n- object: A\n  include: m\n"
         "  fields:\n    t: ${{size * 2}}\n", feats=["option", "macro"])
+    # recipes whose reference to a name is only evaluated when the option says so: the first run of a
+    # chain (n = 0) never evaluates it, the continued run (n = 1) does - and must not find the name in
+    # what an earlier continued run of ANOTHER recipe restored
+    add("opt_uses_first", "- option: n\n  default: 0\n- object: K\n  just_once: true\n  fields:\n    k: 1\n"
+        "- object: B\n  count: ${{n}}\n  fields:\n    y: ${{first.x}}\n", feats=["nickname", "option"])
+    add("opt_uses_table_A", "- option: n\n  default: 0\n- object: K\n  just_once: true\n  fields:\n    k: 1\n"
+        "- object: B\n  count: ${{n}}\n  fields:\n    y: ${{A.x}}\n    r:\n      reference: A\n",
+        feats=["nickname", "option"])
+    add("once_then_many", "- option: n\n  default: 2\n- object: A\n  just_once: true\n  nickname: first\n  fields:\n    x: 5\n"
+        "- object: B\n  count: ${{n}}\n  fields:\n    a:\n      reference: first\n    y: ${{first.x + id}}\n",
+        feats=["nickname", "just_once", "option"])
     add("broken_yaml", "- object: [\n", feats=["fails"])
     add("not_a_recipe", "- bogus: 1\n", feats=["fails"])
     add("div_zero_second_row", "- object: A\n  count: 3\n  fields:\n    x: ${{ 10 // (2 - id) }}\n", feats=["fails"])
@@ -715,6 +958,64 @@ def yaml_pool():
 def _wrap_sfcore(rng):
     r, feats = sfcore.gen_recipe(rng)
     return {"k": "sfcore", "recipe": r, "features": feats, "reps": rng.choice([1, 1, 2])}
+
+
+_TOP_OBJECT = re.compile(r"^- object: ([A-Za-z][A-Za-z0-9_]*)\s*$", re.M)
+
+
+def spec_tables(spec, csv_path="data.csv"):
+    """top-level tables of a recipe (targets of a target_number)"""
+    if spec["k"] == "prog":
+        return prog_tables(spec)
+    try:
+        return sorted(set(_TOP_OBJECT.findall(recipe_text(spec, csv_path))))
+    except Exception:
+        return []
+
+
+def _with_job(spec, **job):
+    c = json.loads(json.dumps(spec))
+    j = dict(c.get("job") or {})
+    j.update({k: v for k, v in job.items() if v is not None})
+    c["job"] = j
+    return c
+
+
+def _option_names(spec):
+    if spec["k"] == "prog":
+        return [(t["count_opt"], t["table"]) for t in spec["templates"] if t.get("count_opt")]
+    return []
+
+
+def gen_chain(rng, spec, name):
+    """the jobs of one continuation chain of a recipe: a run that writes a continuation file, then one
+    or two runs that go on from it.  With option-controlled counts the first link may make NO row of a
+    table (its continuation file has no entry for it) that the next link makes and is stopped by."""
+    opts = _option_names(spec)
+    tables = spec_tables(spec)
+    links = []
+    uo0 = uo1 = None
+    target = None
+    if opts and rng.random() < 0.7:
+        o, t = rng.choice(opts)
+        uo0 = {o: 0}
+        uo1 = {o: rng.choice([1, 2, 2, 3])}
+        if rng.random() < 0.8:
+            target = [rng.choice([1, 2, 3, 4]), t]
+    elif tables and rng.random() < 0.5:
+        target = [rng.choice([1, 2, 3]), rng.choice(tables)]
+    links.append(_with_job(spec, cont_out=name, user_options=uo0,
+                           target=([rng.choice([1, 2]), rng.choice(tables)] if tables and rng.random() < 0.15 else None)))
+    n_more = rng.choice([1, 1, 2])
+    prev = name
+    for k in range(n_more):
+        out = f"{name}_{k + 1}" if (k + 1 < n_more or rng.random() < 0.3) else None
+        links.append(_with_job(spec, cont_in=prev, cont_out=out, user_options=uo1 if k == 0 else None,
+                               target=target if (k == 0 or rng.random() < 0.4) else None))
+        if out is None:
+            break
+        prev = out
+    return links
 
 
 def gen_seq(rng, pool_yaml, idx=0, tier="quick"):
@@ -736,13 +1037,51 @@ def gen_seq(rng, pool_yaml, idx=0, tier="quick"):
         j = rng.randrange(n)
         if i != j:
             recipes[j] = json.loads(json.dumps(recipes[i]))
+    # ---- jobs: continuation chains (interleaved with the other runs and with each other), targets
+    chains = rng.choice([0, 0, 1, 1, 2])
+    if chains:
+        slots = [[r] for r in recipes]
+        used = 0
+        for c in range(chains):
+            base = rng.choice(recipes) if rng.random() < 0.6 else (gen_prog(rng, fail_p=0.05) if rng.random() < 0.7
+                                                                    else _wrap_sfcore(rng))
+            if base.get("job") or base.get("broken") or base.get("stop"):
+                continue
+            links = gen_chain(rng, base, f"c{c}")
+            pos = sorted(rng.randrange(len(slots) + 1) for _ in links)
+            for k, (lk, at) in enumerate(zip(links, pos)):
+                slots.insert(min(at + k, len(slots)), [lk])
+            used += 1
+        recipes = [r for sl in slots for r in sl][:8]
+    for k, r in enumerate(recipes):
+        if not r.get("job") and not r.get("stop") and rng.random() < 0.12:
+            tabs = spec_tables(r)
+            if tabs:
+                recipes[k] = _with_job(r, target=[rng.choice([1, 2, 3, 4]), rng.choice(tabs)])
+        elif not r.get("job") and not r.get("stop") and r.get("reps", 1) == 1 and rng.random() < 0.15:
+            recipes[k] = _with_job(r, app="default")
+    # a dataset file rewritten by the application and a process-program that reads it by a relative
+    # path do not go together (the model's file system is fixed per case)
+    if any("data.csv" in rel for r in recipes for rel in (r.get("files") or {})):
+        for r in recipes:
+            if r["k"] == "prog":
+                for t in r["templates"]:
+                    t["fields"] = [f for f in t["fields"] if f[0] != "dsrel"]
+    all_prog = all(r["k"] == "prog" for r in recipes)
     shared = rng.random() < 0.12 and all(r["k"] in ("prog", "sfcore") for r in recipes)
     if shared and rng.random() < 0.3:
         shared = 3
-    spawn_share = 0.25 if tier == "quick" else 0.03
-    return {"kind": "seq", "recipes": recipes, "api": rng.choice(["generate", "generate_data"]),
+    spawn_share = 0.08 if tier == "quick" else 0.03
+    case = {"kind": "seq", "recipes": recipes, "api": rng.choice(["generate", "generate_data"]),
             "fresh": "spawn" if rng.random() < spawn_share else "fork", "shared_opts": shared,
             "seed": rng.randint(1, 10 ** 6)}
+    if all_prog and rng.random() < 0.25:
+        # an application that reuses its one SnowfakeryApplication object (finding C19-app-object-reused)
+        case["shared_app"] = True
+        for k, r in enumerate(recipes):
+            if job_of(r).get("app"):
+                recipes[k] = _with_job(r, app="own")
+    return case
 
 
 def _directed(rng, pool_yaml):
@@ -809,6 +1148,8 @@ def _directed(rng, pool_yaml):
     out.append(seq([Y["dataset_rel_file_other"], Y["dataset_bad_extension_file_other"], Y["dataset_rel_stream"],
                     Y["dataset_rel_file_work"], Y["dataset_rel_file_other"]]))
     out.append(seq([Y["dataset_missing_file_other"], Y["dataset_rel_stream"]], fresh="spawn"))
+    out.append(seq([Y["dataset_sql_rel_stream"], Y["dataset_sql_rel_file_other"], Y["dataset_sql_rel_stream"],
+                    Y["dataset_sql_rel_file_work"]], api="generate_data"))
     # a plugin that cannot be found from the working directory (the run fails), then the same dotted name
     # from a recipe FILE that has it in its plugins/ directory (directed only: the opposite order depends on
     # Python's own sys.modules cache)
@@ -836,13 +1177,63 @@ def _directed(rng, pool_yaml):
     out.append(seq([Y["forward_ref_unfilled"], Y["forward_ref"], Y["hidden"], Y["macro_option"]]))
     out.append(seq([Y["broken_yaml"], Y["not_a_recipe"], plain]))
     out.append(seq([gen_boundary_prog(520), dates, gen_boundary_prog(30)]))  # lru eviction at 512
+
+    # ---- jobs: continuation files, target numbers, the application object -------------------------
+    J = _with_job
+    # recipe A makes rows of P in every run; recipe B makes rows of P only when its option says so
+    pa = prog([{"table": "P", "count": 3, "fields": [["idplus", 1]]}, {"table": "A", "count": 1, "fields": [["counter", "foo", 5, 2]]}])
+    pb = prog([{"table": "C", "count": 1, "fields": [["lit", 5]]},
+               {"table": "P", "count": 0, "count_opt": "n1", "fields": [["idplus", 2]]},
+               {"table": "B", "count": 1, "fields": [["idplus", 3]]}])
+    a0, a1 = J(pa, cont_out="a"), J(pa, cont_in="a", cont_out="a2")
+    b0 = J(pb, cont_out="b", user_options={"n1": 0})
+    b1 = J(pb, cont_in="b", user_options={"n1": 2}, target=[3, "P"])
+    # a continued run of A, then B continued from a file WITHOUT the table A's file had, stopped by that table
+    out.append(seq([a0, a1, b0, b1], api="generate_data"))
+    out.append(seq([a0, b0, a1, b1]))                                        # interleaved chains
+    out.append(seq([b0, a0, a1, J(pa, cont_in="a2"), b1], fresh="spawn"))    # three links of A first
+    out.append(seq([a0, a1, J(pb, target=[3, "P"], user_options={"n1": 2})]))  # a FRESH target run after a continued one
+    out.append(seq([J(pa, target=[4, "P"]), J(pa, target=[7, "P"], app="own"), J(pa, app="default")], api="generate_data"))
+    # no progress towards the target (RuntimeError, not a DataGenError), then ordinary runs
+    out.append(seq([J(pb, target=[2, "P"]), pa, J(pb, target=[2, "P"], user_options={"n1": 1})]))
+    # uid / counter / date recipes continued: contexts go on, ids go on, counters restart
+    out.append(seq([J(uid_all, cont_out="u"), J(counters, cont_out="k"), J(uid_all, cont_in="u", target=[3, "A"]),
+                    J(counters, cont_in="k")]))
+    # nicknames and just_once rows restored from a continuation file must stay with their own recipe
+    out.append(seq([J(Y["just_once_nick"], cont_out="j"), J(Y["just_once_nick"], cont_in="j"),
+                    J(Y["opt_uses_first"], cont_out="o"), J(Y["opt_uses_first"], cont_in="o", user_options={"n": 1})]))
+    out.append(seq([J(Y["nick_var"], cont_out="j"), J(Y["opt_uses_table_A"], cont_out="o"), J(Y["nick_var"], cont_in="j"),
+                    J(Y["opt_uses_table_A"], cont_in="o", user_options={"n": 1})], api="generate_data"))
+    out.append(seq([J(Y["once_then_many"], cont_out="m"), J(Y["once_then_many"], cont_in="m", target=[5, "B"]),
+                    J(Y["just_once_2reps"], cont_out="q"), J(Y["just_once_2reps"], cont_in="q", cont_out="q2"),
+                    J(Y["just_once_2reps"], cont_in="q2")]))
+    # the application reuses its one SnowfakeryApplication object (finding C19-app-object-reused)
+    two = prog([{"table": "A", "count": 2, "fields": [["idplus", 1]]}], reps=2)
+    out.append(seq([two, two], shared_app=True))
+    out.append(seq([J(pa, target=[3, "P"]), J(pa, target=[3, "P"])], shared_app=True, api="generate_data"))
+    out.append(seq([plain, two, plain], shared_app=True))
+    # relative dataset paths of process-programs: stream / recipe FILE / a failure inside `with chdir`
+    ds_s = prog([{"table": "A", "count": 2, "fields": [["dsrel", "data.csv"], ["idplus", 1]]}])
+    ds_o = prog([{"table": "A", "count": 2, "fields": [["dsrel", "data.csv"]]}], dir="other", reps=2)
+    ds_miss = prog([{"table": "A", "count": 1, "fields": [["dsrel", "no_such_file.csv"]]}], dir="other")
+    ds_ext = prog([{"table": "A", "count": 1, "fields": [["lit", 1], ["dsrel", "data.txt"]]}], dir="other")
+    out.append(seq([ds_s, ds_o, ds_miss, ds_s, ds_ext, ds_s, ds_o]))
+    out.append(seq([ds_miss, ds_s], api="generate_data", fresh="spawn"))
+    # local plugins of process-programs: not found from a stream (DataGenImportError), a module that
+    # raises while it is imported (ValueError: neither normal nor DataGenError), then found from a file
+    pl_fields = [{"table": "T", "count": 2, "fields": [["plug"], ["idplus", 1]]}]
+    pl_s = prog(pl_fields, plugins=["c19_plug"])
+    pl_o = prog(pl_fields, plugins=["c19_plug"], dir="other")
+    pl_bad = prog([{"table": "T", "count": 1, "fields": [["lit", 1]]}], plugins=["c19_bad"], dir="other")
+    out.append(seq([pl_s, pl_bad, plain, pl_o, pl_o]))
+    out.append(seq([pl_bad, ds_s, pl_s], api="generate_data"))
     return out
 
 
 def generate(rng, tier):
     pool_yaml = yaml_pool()
     cases = _directed(rng, pool_yaml)
-    n = 70 if tier == "quick" else 3600
+    n = 70 if tier == "quick" else 1800
     for i in range(n):
         cases.append(gen_seq(rng, pool_yaml, i, tier))
     return cases
@@ -939,11 +1330,28 @@ class _RunTimeout(BaseException):
 
 def base_files():
     """the files every case starts with, relative to its temporary root"""
-    fs = {"other/plugins/c19_plug.py": PLUGIN_TEXT}
+    fs = {"other/plugins/c19_plug.py": PLUGIN_TEXT, "other/plugins/c19_bad.py": BAD_PLUGIN_TEXT}
     for d, txt in (("work", CSV_TEXT), ("other", CSV_OTHER)):
         for fn in ("data.csv", "data.txt"):
             fs[f"{d}/{fn}"] = txt
     return fs
+
+
+def _make_dbs(root):
+    """work/people.db and other/people.db: the same relative URL sqlite:///people.db, another content"""
+    import sqlite3
+    for d, names in (("work", ["Ada", "Abe", "Amy"]), ("other", ["Bob", "Bea", "Ben"])):
+        path = os.path.join(root, d, "people.db")
+        if os.path.exists(path):
+            continue
+        os.makedirs(os.path.dirname(path), exist_ok=True)
+        con = sqlite3.connect(path)
+        try:
+            con.execute("create table people (id integer primary key, name text)")
+            con.executemany("insert into people (name) values (?)", [(n,) for n in names])
+            con.commit()
+        finally:
+            con.close()
 
 
 def _write_files(root, files):
@@ -964,6 +1372,7 @@ def _reset_files(root, all_rel):
             except OSError:
                 pass
     _write_files(root, base)
+    _make_dbs(root)
 
 
 def _recipe_file_rel(spec):
@@ -983,46 +1392,150 @@ def _recipe_source(spec, text, root):
     return path
 
 
-def _one_run(spec, api, opts, seed, csv_path, root=None):
-    """-> rows, err, random generator untouched?"""
+def criterion_of(spec):
+    """(tablename | None, n): the stopping criterion of the job"""
+    job = job_of(spec)
+    if spec.get("stop"):
+        return (spec["stop"], 1)
+    if job.get("target"):
+        return (job["target"][1], job["target"][0])
+    return (None, spec.get("reps", 1))
+
+
+def _cont_ids(text):
+    """id_manager.last_used_ids of a continuation file (None when it cannot be read)"""
+    try:
+        import yaml
+        d = yaml.safe_load(text)
+        ids = d["id_manager"]["last_used_ids"]
+        if all(isinstance(k, str) and isinstance(v, int) and not isinstance(v, bool) for k, v in ids.items()):
+            return {k: v for k, v in ids.items()}
+    except Exception:
+        pass
+    return None
+
+
+def _canon_cont(text):
+    """what a continuation file says, without the date it was written on"""
+    try:
+        import yaml
+        d = yaml.safe_load(text)
+    except Exception:
+        return None
+    if not isinstance(d, dict):
+        return None
+
+    def canon(v):
+        if isinstance(v, dict):
+            return {str(k): canon(x) for k, x in sorted(v.items(), key=lambda kv: str(kv[0]))}
+        if isinstance(v, (list, tuple)):
+            return [canon(x) for x in v]
+        if isinstance(v, (bool, int, str)) or v is None:
+            return v
+        return [type(v).__name__, str(v)]
+    return canon({k: v for k, v in d.items() if k != "today"})
+
+
+def _one_run(spec, api, opts, seed, csv_path, root=None, conts=None, shared_app=None):
+    """-> dict(rows, err, random generator untouched?, cont_out text, cont_in used?, app view)"""
     from snowfakery.api import SnowfakeryApplication, generate_data
     from snowfakery.data_generator import generate
     from snowfakery.data_generator_runtime import StoppingCriteria
     text = recipe_text(spec, csv_path)
-    if spec.get("stop"):
-        crit = StoppingCriteria(spec["stop"], 1)
+    job = job_of(spec)
+    conts = conts if conts is not None else {}
+    table, n = criterion_of(spec)
+    crit = StoppingCriteria(table if table is not None else "__REPS__", n)
+    app_mode = job.get("app", "own")
+    if shared_app is not None:
+        # an application that keeps ONE SnowfakeryApplication object for all its jobs and sets the
+        # criterion of the job on it
+        if shared_app.get("obj") is None:
+            shared_app["obj"] = SnowfakeryApplication(crit)
+            shared_app["obj"].echo = lambda *a, **k: None
+        app = shared_app["obj"]
+        app.stopping_criteria = crit
+    elif app_mode == "default" and table is None and n == 1:
+        app = None                                              # generate / generate_data make their own
     else:
-        crit = StoppingCriteria("__REPS__", spec.get("reps", 1))
-    app = SnowfakeryApplication(crit)
-    app.echo = lambda *a, **k: None
+        app = SnowfakeryApplication(crit)
+        app.echo = lambda *a, **k: None
+    user_options = dict(job.get("user_options") or {})
+    cont_text = conts.get(job.get("cont_in")) if job.get("cont_in") else None
     path = _recipe_source(spec, text, root)
     random.seed(seed)
     r0 = _h(repr(random.getstate()))
     err = None
+    cont_out = None
     if api == "generate":
         cap = _make_capture()
         src = open(path) if path else io.StringIO(text)
+        cfile = io.StringIO(cont_text) if cont_text is not None else None
+        ofile = io.StringIO() if job.get("cont_out") else None
         try:
-            generate(src, {}, cap, app, plugin_options=opts)
+            generate(src, user_options, cap, app, plugin_options=opts, continuation_file=cfile,
+                     generate_continuation_file=ofile)
+            if ofile is not None:
+                cont_out = ofile.getvalue()
         except _RunTimeout:
             err = "HANG"
         except BaseException as e:
             err = C.canon_exc(e)
         finally:
             src.close()
-        return cap.rows, err, _h(repr(random.getstate())) == r0
-    out = io.StringIO()
-    try:
-        generate_data(path or io.StringIO(text), parent_application=app, output_format="json", output_file=out,
-                      plugin_options=opts)
-    except _RunTimeout:
-        err = "HANG"
-    except BaseException as e:
-        err = C.canon_exc(e)
-    return _json_rows(out.getvalue()), err, _h(repr(random.getstate())) == r0
+        rows = cap.rows
+    else:
+        out = io.StringIO()
+        kw = {}
+        cdir = os.path.join(root, "conts") if root else None
+        if cont_text is not None:
+            if cdir:
+                os.makedirs(cdir, exist_ok=True)
+                kw["continuation_file"] = os.path.join(cdir, "in.yml")
+                with open(kw["continuation_file"], "w") as f:
+                    f.write(cont_text)
+            else:
+                kw["continuation_file"] = io.StringIO(cont_text)
+        opath = None
+        if job.get("cont_out"):
+            if cdir:
+                os.makedirs(cdir, exist_ok=True)
+                opath = os.path.join(cdir, "out.yml")
+                kw["generate_continuation_file"] = opath
+            else:
+                kw["generate_continuation_file"] = io.StringIO()
+        if app is not None:
+            kw["parent_application"] = app
+        try:
+            generate_data(path or io.StringIO(text), output_format="json", output_file=out, plugin_options=opts,
+                          user_options=user_options, **kw)
+            if job.get("cont_out"):
+                if opath:
+                    with open(opath) as f:
+                        cont_out = f.read()
+                else:
+                    cont_out = kw["generate_continuation_file"].getvalue()
+        except _RunTimeout:
+            err = "HANG"
+        except BaseException as e:
+            err = C.canon_exc(e)
+        rows = _json_rows(out.getvalue())
+    if job.get("cont_out"):
+        conts[job["cont_out"]] = cont_out if (err is None and cont_out) else None
+    appv = None
+    if app is not None:
+        try:
+            rc, st = app.rep_count, app.starting_id
+            if isinstance(rc, int) and isinstance(st, int):
+                appv = [rc, st]
+        except Exception:
+            appv = None
+    return {"rows": rows, "err": err, "rnd_same": _h(repr(random.getstate())) == r0,
+            "cont_out": conts.get(job["cont_out"]) if job.get("cont_out") else None,
+            "cont_in": cont_text, "app": appv}
 
 
-def _view(opts):
+def _view(opts, root=None, path0=None):
     import snowfakery.template_funcs as tf
     from snowfakery.standard_plugins.UniqueId import UniqueNumericIdGenerator as G
     from snowfakery.object_rows import RowHistoryCV
@@ -1046,6 +1559,25 @@ def _view(opts):
         v["cv_set"] = None
         v["cv_id"] = 0
     v["app_ver"] = (opts or {}).get("snowfakery_version") if isinstance(opts, dict) else None
+
+    def rel(path):
+        if root:
+            a, r = os.path.realpath(path), os.path.realpath(root)
+            if a == r or a.startswith(r + os.sep):
+                return os.path.relpath(a, r)
+        return path
+    v["cwd"] = rel(os.getcwd())
+    if path0 is not None:
+        # sys.path relative to what it was when the process started its first run: the old entries
+        # must still be there, in order; what was added is listed
+        cur = list(sys.path)
+        if cur[:len(path0)] == path0:
+            v["path"] = [rel(x) for x in cur[len(path0):]]
+        else:
+            v["path"] = ["<changed>"] + [rel(x) for x in cur if x not in path0]
+    else:
+        v["path"] = []
+    v["modules"] = sorted(m for m in LOCAL_PLUGINS if m in sys.modules)
     return v
 
 
@@ -1058,19 +1590,20 @@ def _uses_random(spec):
 
 
 def run_many(payload):
-    """Runs in a pristine process.  payload: specs, api, shared, seed, csv, audit."""
+    """Runs in a pristine process.  payload: specs, api, shared, seed, csv, audit, conts."""
     def on_alarm(signum, frame):
         raise _RunTimeout()
     signal.signal(signal.SIGALRM, on_alarm)
-    if payload.get("root"):
+    root = payload.get("root")
+    if root:
         # files as they were when this (part of the) sequence starts: the initial files, then what the
         # application wrote for the earlier jobs (`prewrite`: those jobs are NOT run in this process)
-        _reset_files(payload["root"], payload.get("all_files", []))
+        _reset_files(root, payload.get("all_files", []))
         for sp in payload.get("prewrite", []):
-            _write_files(payload["root"], sp.get("files"))
+            _write_files(root, sp.get("files"))
             if sp.get("dir"):
-                _write_files(payload["root"], {_recipe_file_rel(sp): recipe_text(sp, payload["csv"])})
-        os.chdir(os.path.join(payload["root"], "work"))     # the application's working directory
+                _write_files(root, {_recipe_file_rel(sp): recipe_text(sp, payload["csv"])})
+        os.chdir(os.path.join(root, "work"))     # the application's working directory
     opts = None
     if payload["shared"]:
         opts = dict(SHARED_OPTS)
@@ -1078,32 +1611,44 @@ def run_many(payload):
             opts["snowfakery_version"] = 3      # the application itself asks for native types
     out = []
     w = Walker()
+    path0 = list(sys.path)
     prev_cv = _view(opts)["cv_id"]
     after = None
+    conts = dict(payload.get("conts") or {})     # continuation files the application kept from earlier jobs
+    shared_app = {"obj": None} if payload.get("shared_app") else None
     for spec in payload["specs"]:
         before = (after or w.snapshot()) if payload["audit"] else None
         t0 = datetime.datetime.now(datetime.timezone.utc).isoformat()
         signal.alarm(30)
         try:
-            rows, err, rnd_same = _one_run(spec, payload["api"], opts, payload["seed"], payload["csv"],
-                                           payload.get("root"))
+            r = _one_run(spec, payload["api"], opts, payload["seed"], payload["csv"], root, conts, shared_app)
         except _RunTimeout:
-            rows, err, rnd_same = [], "HANG", True
+            r = {"rows": [], "err": "HANG", "rnd_same": True, "cont_out": None, "cont_in": None, "app": None}
         finally:
             signal.alarm(0)
         t1 = datetime.datetime.now(datetime.timezone.utc).isoformat()
-        o = {"rows": rows, "err": err, "t0": t0, "t1": t1, "random_state_untouched": rnd_same}
-        v = _view(opts)
+        rnd_same = r.pop("rnd_same")
+        o = dict(r, t0=t0, t1=t1, random_state_untouched=rnd_same)
+        v = _view(opts, root, path0)
         v["cv_changed"] = v["cv_id"] != prev_cv
         prev_cv = v.pop("cv_id")
+        v["app"] = r["app"]
         o["view"] = v
         if payload["audit"]:
             after = w.snapshot()
             m, wl, un = classify_changes(before, after)
+            uses_rnd = _uses_random(spec)
+            keep = []
+            for u in un:
+                if RANDOM_LOCS.search(u[0]) and uses_rnd:
+                    wl["third-party random generator advanced by a recipe that calls random functions"] = 1
+                else:
+                    keep.append(u)
+            un = keep
             if not rnd_same:
                 # the global random generator is re-seeded by the harness before every run; a recipe
                 # without random functions must not draw from it
-                if _uses_random(spec):
+                if uses_rnd:
                     wl["global random generator advanced by a recipe that calls random functions"] = 1
                 else:
                     un.append(["<process>:random.getstate()", "as seeded", "advanced by a recipe without random functions"])
@@ -1211,12 +1756,19 @@ def run_impl(case):
                            {_recipe_file_rel(sp) for sp in case["recipes"] if sp.get("dir")})
         csv_path = os.path.join(tmp, "work", "data.csv")
         base = {"api": case.get("api", "generate"), "shared": case.get("shared_opts") or False,
+                "shared_app": bool(case.get("shared_app")),
                 "seed": case.get("seed", 1), "csv": csv_path, "root": tmp, "all_files": all_files}
         seq = launch(dict(base, specs=case["recipes"], audit=True))
         fresh = []
+        conts = {}
         for i, spec in enumerate(case["recipes"]):
-            # alone in a fresh process, on the files as they are when run i starts
-            fresh.append(launch(dict(base, specs=[spec], prewrite=case["recipes"][:i], audit=False))[0])
+            # alone in a fresh process, on the files as they are when run i starts - the continuation
+            # files the earlier jobs of the sequence left behind included (they are inputs of run i)
+            fresh.append(launch(dict(base, specs=[spec], prewrite=case["recipes"][:i], audit=False,
+                                     conts=dict(conts)))[0])
+            name = job_of(spec).get("cont_out")
+            if name:
+                conts[name] = seq[i].get("cont_out")
         return {"seq": seq, "fresh": fresh, "mode": mode}
     finally:
         import shutil
@@ -1305,22 +1857,27 @@ class _Codes:
 def _obs_terms(spec, rows, codes, windows, learn, dtab, dttab):
     """Coq obs list for the complete rows delivered by a process-program run.
     learn=True (fresh run): assign value codes and fill the parse tables."""
-    trace = prog_trace(spec)
+    trace = prog_rows(spec, len(rows))
     out = []
+    made = set()                      # memo sites already created in this run (DateCounter, Dataset)
     for k, row in enumerate(rows):
         if k >= len(trace):
-            out.append("(BVal (-7))")           # more rows than the program has: forces a mismatch
+            out.append("(BVal (-7))")           # more rows than the program can make: forces a mismatch
             continue
-        trow = trace[k]
-        d = _row_fields(spec, row, trow)
+        ttable, ti, tfields = trace[k]
+        d = dict((n, v) for n, v in row[1]) if row[0] == ttable else None
         if d is None or not (d.get("id") and d["id"][0] == "int"):
             out.append("(BVal (-8))")
             continue
-        out.append(f"(BId {C.cstr(trow[0])} {C.cz(d['id'][1])})")
-        for name, f, op in trow[1]:
-            if op is None:
-                continue
+        out.append(f"(BId {C.cstr(ttable)} {C.cz(d['id'][1])})")
+        for name, f in tfields:
             kind = f[0]
+            if kind in ("lit", "idplus", "tag", "lazyref", "failat", "fail", "plug"):
+                continue
+            if kind in ("datecounter", "dsrel"):
+                if (ti, name) in made:
+                    continue
+                made.add((ti, name))
             v = d.get(name)
             if v is None:
                 out.append("(BVal (-9))")
@@ -1356,40 +1913,85 @@ def _obs_terms(spec, rows, codes, windows, learn, dtab, dttab):
                         t = f"(BVal {codes.lookup(['dt', v])})"
                 out.extend([t, t] if kind == "dtbetween" else [t])
             elif kind == "counter":
-                nm = f[1] or op.split('"')[1]
+                nm = f[1] or f"site_{ti}_{name}"
                 out.append(f"(BCount {C.cstr(nm)} {C.cz(v[1])})" if v[0] == "int" else "(BVal (-10))")
             elif kind == "lazy":
                 out.append("BLazy" if v == ["int", f[2]] else "(BVal (-11))")
             elif kind == "version":
                 out.append("(BVersion 3)" if v == ["none"] else "(BVersion 2)" if v == ["str", "None"] else "(BVal (-12))")
+            elif kind == "dsrel":
+                try:        # first column of the first row read: tells which file was opened
+                    out.append(f"(BVal {C.cz(int(v[1]))})")
+                except Exception:
+                    out.append("(BVal (-14))")
             else:
                 out.append("(BVal (-13))")
     return out
 
 
-def _recipe_term(spec, fresh):
+def _crit_term(spec):
+    table, n = criterion_of(spec)
+    return f"(CReps {C.cz(n)})" if table is None else f"(CTable {C.cstr(table)} {C.cz(n)})"
+
+
+def _cont_term(run):
+    """the continuation file the run was given, as the model's r_cont; "skip" when it cannot be read"""
+    text = run.get("cont_in")
+    if text is None:
+        return "None"
+    ids = _cont_ids(text)
+    if ids is None:
+        return "skip"
+    return "(Some " + C.clist(C.cpair(C.cstr(k), C.cz(v)) for k, v in sorted(ids.items())) + ")"
+
+
+def _recipe_term(spec, fresh, run):
+    """-> (term, opaque) or (None, _) when the job cannot be expressed"""
+    cont = _cont_term(run)
+    if cont == "skip":
+        return None, True
+    dirt = C.copt(spec.get("dir"), C.cstr)
     if spec["k"] == "prog":
-        stage = "SParseFail" if spec.get("broken") == "parse" else "SInitFail" if spec.get("stop") else "SExec"
-        ops = []
-        for table, fields in prog_trace(spec):
-            ops.append(f"(ORow {C.cstr(table)})")
-            ops.extend(op for _, _, op in fields if op)
+        opaque = prog_has_dtf(spec) and not prog_static(spec)
+        stage = "SParseFail" if spec.get("broken") == "parse" else "SExec"
         ver = spec.get("version")
-        return f"(mkRecipe {stage} {C.copt(ver, C.cz)} {C.clist(ops)})"
+        plugins = C.clist(C.cstr(m) for m in (spec.get("plugins") or []))
+        return (f"(mkRecipe {stage} {C.copt(ver, C.cz)} {C.clist(body_ops(spec))} {_crit_term(spec)} {cont} "
+                f"{C.clist(C.cstr(t) for t in prog_tables(spec))} {dirt} {plugins})"), opaque
     # opaque: whether it reaches Interpreter.execute is read from the fresh process
     stage = "SExec" if fresh["view"].get("cv_changed") else "SParseFail"
     ver = spec["recipe"]["version"] if spec["k"] == "sfcore" else None
-    return f"(mkRecipe {stage} {C.copt(ver, C.cz)} [])"
+    # the criterion of an opaque job is only used for the application object's counters: keep the
+    # table known to the model whenever the run got as far as execute
+    table, n = criterion_of(spec)
+    tables = C.clist([C.cstr(table)] if table is not None else [])
+    text = spec.get("text", "") if spec["k"] == "yaml" else ""
+    plugins = C.clist(C.cstr(m) for m in LOCAL_PLUGINS if re.search(r"^- plugin: %s\." % re.escape(m), text, re.M))
+    return (f"(mkRecipe {stage} {C.copt(ver, C.cz)} [] {_crit_term(spec)} {cont} {tables} {dirt} {plugins})"), True
 
 
-def _view_term(v):
+def _view_term(v, opaque):
     if v.get("uid") is None or v.get("dates") is None or v.get("dts") is None or v.get("cv_set") is None:
         return None
     av = v.get("app_ver")
     if av is not None and not isinstance(av, int):
         return None
+    if not isinstance(v.get("cwd"), str) or not isinstance(v.get("path"), list):
+        return None
+    app = v.get("app")
+    # the counters of the application object are predicted for process-programs only (an opaque job's
+    # iterations are not modelled)
+    appt = "None" if (opaque or not app) else f"(Some ({C.cz(app[0])}, {C.cz(app[1])}))"
     return (f"(mkView {C.cz(v['uid'])} {C.cz(v['dates'][0])} {C.cz(v['dates'][1])} {C.cz(v['dts'][0])} "
-            f"{C.cz(v['dts'][1])} {C.cbool(v['cv_set'])} {C.cbool(v['cv_changed'])} {C.copt(av, C.cz)})")
+            f"{C.cz(v['dts'][1])} {C.cbool(v['cv_set'])} {C.cbool(v['cv_changed'])} {C.copt(av, C.cz)} "
+            f"{C.cstr(v['cwd'])} {C.clist(C.cstr(x) for x in v['path'])} "
+            f"{C.clist(C.cstr(x) for x in v.get('modules', []))} {appt})")
+
+
+# files and plugin modules the harness puts under the root of a case (base_files): what the model's
+# file system / import system answer.  First column of the first row identifies a CSV.
+FTAB = {"work/data.csv": 1, "other/data.csv": 91, "work/data.txt": None, "other/data.txt": None}
+PTAB = {"other/plugins/c19_plug": True, "other/plugins/c19_bad": False}
 
 
 def coq_case(case, obs):
@@ -1408,47 +2010,52 @@ def coq_case(case, obs):
         if spec["k"] != "prog":
             continue
         last = collections.Counter()
-        for _rep in range(spec.get("reps", 1)):
-            for t in spec["templates"]:
-                for _j in range(t["count"]):
-                    last[t["table"]] += 1
-                    for f in t["fields"]:
-                        if f[0] == "date":
-                            key, tab, valid = model_key(f[1], f[2]), dtab, f[3]
-                        elif f[0] == "datecounter":
-                            key, tab, valid = f[1], dtab, True
-                        elif f[0] in ("datetime", "dtbetween") and not clock_kind(f[1], f[2]):
-                            key, tab, valid = model_key(f[1], f[2]), dttab, f[3]
-                        elif f[0] == "dtf":
-                            key, tab, valid = boundary_key(last[t["table"]]), dttab, True
-                        else:
-                            continue
-                        if not valid:
-                            tab[key] = None
-                        elif key not in tab:
-                            extra += 1
-                            tab[key] = extra
+        for table, ti, fields in prog_body(spec):
+            last[table] += 1
+            for _name, f in fields:
+                if f[0] == "date":
+                    key, tab, valid = model_key(f[1], f[2]), dtab, f[3]
+                elif f[0] == "datecounter":
+                    key, tab, valid = f[1], dtab, True
+                elif f[0] in ("datetime", "dtbetween") and not clock_kind(f[1], f[2]):
+                    key, tab, valid = model_key(f[1], f[2]), dttab, f[3]
+                elif f[0] == "dtf":
+                    key, tab, valid = boundary_key(last[table]), dttab, True
+                else:
+                    continue
+                if not valid:
+                    tab[key] = None
+                elif key not in tab:
+                    extra += 1
+                    tab[key] = extra
     windows = _windows(seq)
     runs = []
+    shared_app = bool(case.get("shared_app"))
     for i, (spec, sq, fr) in enumerate(zip(case["recipes"], seq, fresh)):
-        vt = _view_term(sq["view"])
+        rt, opaque = _recipe_term(spec, fr, sq)
+        if rt is None:
+            return None         # the continuation file is not in the shape the harness knows
+        if shared_app and opaque:
+            return None         # the counters on the shared object after an unmodelled job are unknown
+        vt = _view_term(sq["view"], opaque)
         if vt is None:
             return None         # private names the view reads are gone: nothing to compare
-        env = f"(mkEnv {i + 1} 0 {'(Some 3)' if case.get('shared_opts') == 3 else 'None'})"
-        opaque = spec["k"] != "prog"
+        env = (f"(mkEnv {i + 1} 0 {'(Some 3)' if case.get('shared_opts') == 3 else 'None'} "
+               f"{C.cbool(not shared_app)})")
         if opaque:
             ob = "[]"
         else:
             ob = C.clist(_obs_terms(spec, sq["rows"], codes, windows, False, dtab, dttab))
         err = "None" if sq["err"] is None else f"(Some {C.cerr(sq['err'])})"
-        runs.append(f"(mkRunCase {env} {_recipe_term(spec, fr)} {C.cbool(opaque)} {ob} {err} {vt})")
+        runs.append(f"(mkRunCase {env} {rt} {C.cbool(opaque)} {ob} {err} {vt})")
     unmodelled = sorted({u[0] for sq in seq for u in sq.get("audit", {}).get("unmodelled", [])})
 
     def tab_term(tab):
         return C.clist(C.cpair(C.cstr(k), C.copt(v, C.cz)) for k, v in sorted(tab.items()))
 
-    return (f"CSeq {tab_term(dtab)} {tab_term(dttab)} {C.clist(C.cstr(u[:200]) for u in unmodelled)} "
-            f"{C.clist(runs)}")
+    ptab = C.clist(C.cpair(C.cstr(k), C.cbool(v)) for k, v in sorted(PTAB.items()))
+    return (f"CSeq {tab_term(dtab)} {tab_term(dttab)} {tab_term(FTAB)} {ptab} "
+            f"{C.clist(C.cstr(u[:200]) for u in unmodelled)} {C.clist(runs)}")
 
 
 # =============================================================================== property oracle
@@ -1465,11 +2072,11 @@ def _kind_class(f):
     return "exact"
 
 
-def _row_classes(spec):
-    """per delivered row (index k): {field name: (class, field spec)}.  Process-programs: from the
-    unrolled trace (delivered rows are a prefix of it); other recipes: by field name."""
+def _row_classes(spec, nrows):
+    """per delivered row (index k): (table, {field name: (class, field spec)}).  Process-programs: from the
+    iterations written out (delivered rows are a prefix of them); other recipes: by field name."""
     if spec["k"] == "prog":
-        return [(table, {name: (_kind_class(f), f) for name, f, _ in fields}) for table, fields in prog_trace(spec)]
+        return [(table, {name: (_kind_class(f), f) for name, f in fields}) for table, _ti, fields in prog_rows(spec, nrows)]
     return None
 
 
@@ -1489,25 +2096,45 @@ def _shape(v):
 
 def analyse(case, obs):
     """-> dict(leaks=[msg], stale=[msg], opts=[msg], alpha=[msg])"""
-    res = {"leaks": [], "stale": [], "opts": [], "alpha": []}
+    res = {"leaks": [], "stale": [], "opts": [], "alpha": [], "app": []}
     seq, fresh = obs["seq"], obs["fresh"]
+    shared_app = bool(case.get("shared_app"))
     windows = _windows(seq)
     uids = {}
     max_ctx_before = 0
     for i, (spec, sq, fr) in enumerate(zip(case["recipes"], seq, fresh)):
-        rowcls = _row_classes(spec)
+        rowcls = _row_classes(spec, max(len(sq["rows"]), len(fr["rows"])))
         tag = f"run {i + 1}/{len(seq)} ({spec.get('name') or spec['k']})"
         # a shared options dict that an earlier run wrote a version into
         preset = 3 if case.get("shared_opts") == 3 else None
         tainted = bool(case.get("shared_opts") and spec["k"] == "prog" and not spec.get("version") and i > 0
                        and seq[i - 1]["view"].get("app_ver") != preset)
         bucket_default = "leaks"
+        job = job_of(spec)
+        if job:
+            tag += " job " + json.dumps({k: v for k, v in job.items() if v is not None}, sort_keys=True)
+        # the application passes its one SnowfakeryApplication object again (its counters of the earlier
+        # runs are the only thing that may explain another number of iterations / the no-progress error)
+        reused = shared_app and i > 0
+        count_bucket = res["opts"] if tainted else res["app"] if reused else res["leaks"]
         if sq["err"] != fr["err"]:
-            (res["opts"] if tainted else res["leaks"]).append(
+            (count_bucket if (not reused or {sq["err"], fr["err"]} == {None, "RuntimeError"}) else res["leaks"]).append(
                 f"{tag}: outcome {sq['err'] or 'ok'} in the sequence, {fr['err'] or 'ok'} alone in a fresh process")
         if len(sq["rows"]) != len(fr["rows"]):
-            (res["opts"] if tainted else res["leaks"]).append(
-                f"{tag}: {len(sq['rows'])} rows in the sequence, {len(fr['rows'])} alone")
+            count_bucket.append(f"{tag}: {len(sq['rows'])} rows in the sequence, {len(fr['rows'])} alone")
+        # the continuation file a run writes is output of the run too (without the date it was written on)
+        ca, cb = sq.get("cont_out"), fr.get("cont_out")
+        if ca is not None and cb is not None:
+            da, db = _canon_cont(ca), _canon_cont(cb)
+            if da is not None and db is not None and da != db:
+                if _uses_random(spec) or spec["k"] == "sfcore" and sfcore.uses_random(spec["recipe"]):
+                    da = {k: da.get(k) for k in ("id_manager", "nicknames_and_tables")}
+                    db = {k: db.get(k) for k in ("id_manager", "nicknames_and_tables")}
+                if da != db:
+                    diff = sorted(k for k in set(da) | set(db) if da.get(k) != db.get(k))
+                    count_bucket.append(f"{tag}: the continuation file written in the sequence differs from the one "
+                                        f"written alone in {diff}: {json.dumps(da.get(diff[0]))[:160]} / "
+                                        f"{json.dumps(db.get(diff[0]))[:160]}")
         run_ctx = []
         for k, (a, b) in enumerate(zip(sq["rows"], fr["rows"])):
             if a[0] != b[0] or [n for n, _ in a[1]] != [n for n, _ in b[1]]:
@@ -1557,16 +2184,18 @@ def analyse(case, obs):
                                             f"against a time before this run started (the time of run {j or '?'})")
         if run_ctx:
             max_ctx_before = max(max_ctx_before, max(run_ctx))
-        # ids start at 1
+        # ids start at 1 - in a continued run: after the last id its OWN continuation file records
         if sq["err"] is None:
+            cont = _cont_ids(sq["cont_in"]) if sq.get("cont_in") else {}
             ids = {}
             for t, fs in sq["rows"]:
                 for n, v in fs:
                     if n == "id" and v[0] == "int":
                         ids.setdefault(t, []).append(v[1])
             for t, l in ids.items():
-                if min(l) != 1:
-                    res["leaks"].append(f"ids: {tag}: ids of {t} start at {min(l)}")
+                if cont is not None and min(l) != cont.get(t, 0) + 1:
+                    res["leaks"].append(f"ids: {tag}: ids of {t} start at {min(l)}" +
+                                        (f", its continuation file says {cont.get(t, 0)} were used" if cont else ""))
     return res
 
 
@@ -1579,6 +2208,8 @@ def oracle(case, obs):
         return m if m.split(":")[0] in ("uid-repeat", "uid-context", "ids") else "leak: " + m
     if res["opts"]:
         return "shared-options: " + res["opts"][0]
+    if res["app"]:
+        return "app-reused: " + res["app"][0]
     if res["stale"]:
         return "stale-clock: " + res["stale"][0]
     if res["alpha"]:
@@ -1598,8 +2229,14 @@ def match_finding(case, obs, msg, findings):
         return None                  # something else is wrong as well: never masked
     # the two other classes (stale-clock: fc3a5e8, shared-options: d5304ed) are repaired defects:
     # they are violations again if they come back
-    if msg.startswith("alpha-repeat") and F_ALPHA in ids and res["alpha"] and not res["opts"] and not res["stale"]:
+    if msg.startswith("alpha-repeat") and F_ALPHA in ids and res["alpha"] and not res["opts"] and not res["stale"] \
+            and not res["app"]:
         return F_ALPHA
+    # exactly the class of the finding: the application reuses its SnowfakeryApplication object, and a
+    # LATER run does another number of iterations / raises the no-progress RuntimeError
+    if msg.startswith("app-reused") and F_APP in ids and case.get("shared_app") and res["app"] \
+            and not res["opts"] and not res["stale"]:
+        return F_APP
     return None
 
 
@@ -1613,13 +2250,57 @@ def _seq_features(case):
             fs.add("sfcore")
         else:
             fs |= set(r.get("features", [])) | {"yaml:" + r["name"]}
-    texts = [json.dumps(r, sort_keys=True) for r in case["recipes"]]
+    texts = [json.dumps({k: v for k, v in r.items() if k != "job"}, sort_keys=True) for r in case["recipes"]]
     if len(set(texts)) < len(texts):
         fs.add("repeated_recipe")
+    fs |= job_features(case)
     return fs
 
 
-STATEFUL = {"include_file", "rewritten_file", "uid", "puid", "alpha", "date", "datetime", "dtf", "dtbetween", "counter", "named_counter", "datecounter", "lazy",
+def job_features(case):
+    """input classes of the jobs of a sequence"""
+    fs = set()
+    rs = case["recipes"]
+    written = {}                       # continuation name -> index of the run that writes it
+    continued_before = []              # (index, tables of the recipe) of earlier continued runs
+    for i, r in enumerate(rs):
+        j = job_of(r)
+        if j.get("cont_out"):
+            fs.add("job:writes_continuation")
+            written[j["cont_out"]] = i
+        if j.get("cont_in"):
+            fs.add("job:continued")
+            src = written.get(j["cont_in"])
+            if src is not None and i - src > 1:
+                fs.add("job:continued_with_other_runs_in_between")
+            if any(k < i for k, _ in continued_before):
+                fs.add("job:continued_after_an_earlier_continued_run")
+                mine = set(spec_tables(r))
+                if any(mine & tabs and json.dumps(rs[k].get("templates", rs[k].get("name", k)), sort_keys=True) !=
+                       json.dumps(r.get("templates", r.get("name", i)), sort_keys=True) for k, tabs in continued_before):
+                    fs.add("job:continued_after_continued_run_of_another_recipe_sharing_a_table")
+            continued_before.append((i, set(spec_tables(r))))
+            if j.get("cont_out"):
+                fs.add("job:chain_of_three")
+        if j.get("target"):
+            fs.add("job:target_number")
+            if j.get("cont_in"):
+                fs.add("job:target_number_on_continued_run")
+                uo = j.get("user_options") or {}
+                src = written.get(j["cont_in"])
+                uo0 = job_of(rs[src]).get("user_options") or {} if src is not None else {}
+                if any(v == 0 for v in uo0.values()) and any(v for v in uo.values()):
+                    fs.add("job:target_table_absent_from_the_continuation_file")
+        if j.get("user_options"):
+            fs.add("job:user_options")
+        if j.get("app") == "default":
+            fs.add("job:application_object_made_by_the_api")
+    if case.get("shared_app"):
+        fs.add("job:application_object_reused")
+    return fs
+
+
+STATEFUL = {"job:continued", "job:target_number", "job:application_object_reused", "dsrel", "local_plugin", "include_file", "rewritten_file", "uid", "puid", "alpha", "date", "datetime", "dtf", "dtbetween", "counter", "named_counter", "datecounter", "lazy",
             "dataset", "row_history", "memoised_plugin_value", "repeated_recipe", "random_reference_unique",
             "just_once", "nickname"}
 
@@ -1638,7 +2319,22 @@ def stats(cases, obss):
     modelled, white, unm = Cn(), Cn(), Cn()
     after_failed = shared = locations = 0
     rows = Cn()
+    jobs, conts, apps = Cn(), Cn(), Cn()
     for c, o in zip(cases, obss):
+        for f in job_features(c):
+            jobs[f[4:]] += 1
+        if isinstance(o, dict) and "seq" in o:
+            for r, sq in zip(c["recipes"], o["seq"]):
+                j = job_of(r)
+                if j.get("cont_out"):
+                    conts["written" if sq.get("cont_out") else "not written (the run failed)"] += 1
+                if j.get("cont_in"):
+                    conts["read" if sq.get("cont_in") else "missing (its writer failed): run fresh"] += 1
+                    ids = _cont_ids(sq["cont_in"]) if sq.get("cont_in") else None
+                    if ids is not None and j.get("target") and j["target"][1] not in ids:
+                        conts["target table has no entry in the continuation file read"] += 1
+                if sq.get("app"):
+                    apps["rep_count=%s" % min(sq["app"][0], 5)] += 1
         lens[len(c["recipes"])] += 1
         api[c.get("api")] += 1
         shared += bool(c.get("shared_opts"))
@@ -1667,6 +2363,8 @@ def stats(cases, obss):
             "run_outcomes": dict(errs), "rows_per_run_bucket": {str(k): v for k, v in sorted(rows.items())},
             "api": dict(api), "pristine_process_mode": dict(mode), "shared_options_sequences": shared,
             "runs_right_after_a_failed_run": after_failed,
+            "job_classes_sequences": dict(jobs), "continuation_files": dict(conts),
+            "application_object_rep_count_after_run": dict(apps),
             "audit_locations_fingerprinted": locations, "audit_changed_modelled": dict(modelled),
             "audit_changed_whitelisted": dict(white), "audit_changed_unmodelled": dict(unm)}
 
